@@ -350,8 +350,7 @@ def atom_free_idx(aid: int) -> bool:
             r = True
         else:
             head, args = ATOMS.defs[aid]
-            scan = args[1:] if head in REDUCERS else args
-            r = any(free_idx(q) for q in _direct_rats(scan))
+            r = any(free_idx(q) for q in _direct_rats(args))
         _FREEIDX[aid] = r
     return r
 
@@ -364,6 +363,20 @@ def _direct_rats(x):
     elif isinstance(x, tuple):
         for y in x:
             yield from _direct_rats(y)
+
+
+def direct_atoms(r: Rat) -> set:
+    """atoms reachable through rational arguments only (not through nested structured values)"""
+    out = set()
+    todo = list(r.atoms())
+    while todo:
+        a = todo.pop()
+        if a in out:
+            continue
+        out.add(a)
+        for q in _direct_rats(ATOMS.args(a)):
+            todo.extend(q.atoms())
+    return out
 
 
 def free_idx(r: Rat) -> bool:
@@ -402,12 +415,7 @@ def subst(r, mapping: Dict[int, Rat], rebuild=None, _memo=None):
             out = Rat.atom(aid)
         else:
             head, args = ATOMS.defs[aid]
-            if head in REDUCERS and idx_atom() in mapping:
-                inner = {k: v for k, v in mapping.items() if k != idx_atom()}
-                body = subst(args[0], inner, rebuild) if inner else args[0]
-                nargs = (body,) + subst(args[1:], mapping, rebuild, _memo)
-            else:
-                nargs = subst(args, mapping, rebuild, _memo)
+            nargs = subst(args, mapping, rebuild, _memo)
             out = make_atom(head, *nargs)
         _memo[aid] = out
         return out
@@ -474,6 +482,8 @@ def make_atom(head: str, *args) -> Rat:
         return mk_pow(*args)
     if head == 'Sum':
         return mk_sum(*args)
+    if head in REDUCERS:
+        return mk_reduce(head, *args)
     if head == 'el':
         base, idx = args
         if hasattr(base, 'element'):
@@ -532,7 +542,7 @@ def mk_sum(body: Rat, length: Rat) -> Rat:
     if not free_idx(body):
         return body * length
     if any(atom_free_idx(a) for a in body.d.atoms()):
-        return A('Sum', body, length)
+        return A('Sum', bind(body), length)
     acc = C(0)
     for m, c in body.n.t.items():
         free = [(a, e) for a, e in m if not atom_free_idx(a)]
@@ -541,8 +551,18 @@ def mk_sum(body: Rat, length: Rat) -> Rat:
         if not dep:
             acc = acc + coeff * length
         else:
-            acc = acc + coeff * A('Sum', Rat(Poly({tuple(dep): Fraction(1)})), length)
+            acc = acc + coeff * A('Sum', bind(Rat(Poly({tuple(dep): Fraction(1)}))), length)
     return acc / Rat(body.d)
+
+
+def bind(body: Rat) -> Rat:
+    """rename the free index symbol $i to the bound symbol $b (reductions bind their index)"""
+    return subst(body, {idx_atom(): Rat.atom(ATOMS.intern('sym', ('$b',)))})
+
+
+def mk_reduce(head: str, body: Rat, length: Rat) -> Rat:
+    """Mean / Std / Min / Max over $i < length"""
+    return A(head, bind(body), length)
 
 
 def idx_atom() -> int:
